@@ -92,7 +92,7 @@ func verifGetToken(input string, val *ValType, pos *int) int {
 		return verifBadCode
 	}
 	k := int(c) - 64
-	*val = ValType{s: "!", t: "!", n: -9999, m: -9999}
+	*val = ValType{s: "!", t: "!", n: -9999, m: -9999, st: "!", nm: -9999}
 	sv := string(rune('a'+k%26)) + "@" + strconv.Itoa(p)
 	nv := (7*p + k + 1) % 10007
 	_, _ = sv, nv
